@@ -18,7 +18,7 @@ import (
 // ---------------------------------------------------------------- deep topics and filters
 
 // same table as CheckC14.deep_level
-var c14DeepLevels = []string{"", "a", "b", "$x", "ab", "+", "#", "a+", "#b", "0"}
+var c14DeepLevels = []string{"", "a", "b", "$x", "ab", "+", "#", "a+", "#b", "0", " ", "a ", "\t"}
 
 const (
 	c14LPlus = 5
@@ -56,7 +56,7 @@ func c14DeepDepth(r *rand.Rand) int {
 }
 
 func c14DeepTopic(r *rand.Rand, depth int) []int {
-	lit := []int{1, 1, 2, 2, 4, 9, 0, 3}
+	lit := []int{1, 1, 2, 2, 4, 9, 0, 3, 10, 11, 12}
 	t := make([]int, depth)
 	for i := range t {
 		for {
@@ -440,7 +440,7 @@ func c14NLastCode(evs []c14NEv) string {
 
 func c14NestFamilies(cfg *runCfg, r *rand.Rand, cf *casesFile, m *meta) int {
 	// ---- family nest: random re-entrant histories ----
-	n := 200
+	n := 120
 	if cfg.tier != "quick" {
 		n = 3000
 	}
